@@ -135,7 +135,7 @@ func build(id string, race bool) string {
 	bin := filepath.Join(bdir, "props.test")
 	args := []string{"test", "-c", "-o", bin}
 	cleanup := func() {}
-	if !race && !usesDialSeam(id) && repoDir != "/repo" {
+	if !race && !usesDialSeam(id) && !usesLockSeam(id) && repoDir != "/repo" {
 		mf, err := altModfile(simDir, repoDir)
 		if err != nil {
 			infra("%v", err)
@@ -143,14 +143,18 @@ func build(id string, race bool) string {
 		cleanup = func() { os.Remove(mf); os.Remove(strings.TrimSuffix(mf, ".mod") + ".sum") }
 		args = []string{"test", "-c", "-modfile=" + mf, "-o", bin}
 	}
-	if race || usesDialSeam(id) {
+	if race || usesDialSeam(id) || usesLockSeam(id) {
 		bin = filepath.Join(bdir, "props-dial.test")
 		tags := []string{"-tags", "simdial"}
+		if usesLockSeam(id) {
+			bin = filepath.Join(bdir, "props-lock.test")
+			tags = []string{"-tags", "simhook"}
+		}
 		if race {
 			bin = filepath.Join(bdir, "props-race.test")
 			tags = []string{"-race", "-tags", "simhook"}
 		}
-		scratch, mf, err := instrument(simDir, race)
+		scratch, mf, err := instrument(simDir, race || usesLockSeam(id))
 		cleanup = func() {
 			if scratch != "" {
 				os.RemoveAll(scratch)
@@ -270,6 +274,11 @@ func workers() int {
 }
 
 func isRace(id string) bool { return id == "C13" }
+
+// usesLockSeam: checks (besides C13, which adds the race detector) that are built from the
+// scratch copy with rewritten lock calls, so that goroutines the program under test starts itself
+// contend for its locks inside the kernel.
+func usesLockSeam(id string) bool { return id == "C03" }
 
 // usesDialSeam: checks whose scenarios include go-mail's default dialers (net.Dialer / tls.Dialer
 // rewritten to the simulated network in a scratch copy, see instrument).
